@@ -1,8 +1,369 @@
-/- EmdModel.Spectra — (stub; filled in by the property that owns it) -/
+/-
+  EmdModel.Spectra — model of emd/spectra.py: hilberthuang (dense + sparse),
+  hilberthuang_1d, holospectrum, and the bin bookkeeping around them (C10, C11).
+
+  What the code does, and how it is mirrored here:
+
+  * `np.digitize(v, edges)` for increasing edges and `right=False` is the number
+    of edges ≤ v (`digitize`); a NaN frequency sorts after every edge
+    (`digitizeF none = edges.length`).  Frequencies are `Option Rat`
+    (`none` = NaN); amplitudes are finite rationals.
+  * `hilberthuang`: `yinds = digitize − 1`, samples with `yinds < 0` or
+    `yinds ≥ len(edges) − 1` are dropped (`binIdx`; the pinned tree clamped
+    negative indices into bin 0 instead — `binIdxPinned`, DESIGN.md §9-D8),
+    the survivors become COO triplets `(bin, t, weight)` in C order
+    (`hhtCoo`), and `toarray()` scatter-adds them into a zero matrix, duplicates
+    accumulating (`toDense`).
+  * `hilberthuang_1d`: out-of-range frequencies are overwritten with NaN
+    (`nanOut`), everything is digitised, and for each bin `ii = b+1` and each IMF
+    column the weights of the samples with `finds == ii` are summed (`hht1d`).
+  * `holospectrum`: both frequencies are digitised *without* subtracting one
+    (0 = below, len = at/above the last edge), folded into one sparse column
+    `d1 + d2·(L1+1)`, scatter-added into a `[T × (L1+1)(L2+1)]` matrix, optionally
+    summed / averaged over time, reshaped C-order to `(L2+1, L1+1)` and trimmed
+    `[1:-1, 1:-1]`.
+
+  scipy's `coo_matrix → toarray / sum(axis=0) / mean(axis=0)` and numpy's
+  `reshape` are modelled by what they do to indices (scatter-add, column sums,
+  C-order chunking); no numeric library routine is re-implemented.
+-/
 import EmdModel.Protocol
 
 namespace Spectra
 
-def handle (_o : Protocol.Op) : Option String := none
+/-- an instantaneous frequency: `none` is NaN -/
+abbrev Freq := Option Rat
+
+/-- `np.digitize(v, edges)` for increasing `edges`, `right=False` -/
+def digitize (e : List Rat) (v : Rat) : Nat := e.countP (· ≤ v)
+
+/-- NaN sorts after every edge -/
+def digitizeF (e : List Rat) : Freq → Nat
+  | none => e.length
+  | some v => digitize e v
+
+/-- amplitude, squared in energy mode -/
+def weight (energy : Bool) (a : Rat) : Rat := if energy then a * a else a
+
+/-- one COO entry -/
+structure Trip where
+  row : Nat
+  col : Nat
+  val : Rat
+
+/-- triplets of all time rows in C order; `mk t r` are the triplets of time row `t` -/
+def cooFrom {ρ : Type} (mk : Nat → ρ → List Trip) : Nat → List ρ → List Trip
+  | _, [] => []
+  | t, r :: rs => mk t r ++ cooFrom mk (t + 1) rs
+
+def zerosMat (nr nc : Nat) : List (List Rat) := List.replicate nr (List.replicate nc 0)
+
+/-- `M[row, col] += val` (a no-op outside the matrix; scipy raises there, see `inShape`) -/
+def addAt (m : List (List Rat)) (x : Trip) : List (List Rat) :=
+  m.modify x.row fun r => r.modify x.col (· + x.val)
+
+/-- `coo_matrix(...).toarray()`: scatter-add, duplicates accumulate -/
+def toDense (nr nc : Nat) (ts : List Trip) : List (List Rat) := ts.foldl addAt (zerosMat nr nc)
+
+/-- `coo_matrix` rejects entries outside its shape with ValueError -/
+def inShape (nr nc : Nat) (ts : List Trip) : Bool := ts.all fun x => x.row < nr && x.col < nc
+
+/-! ### hilberthuang -/
+
+/-- the bin of one sample in `hilberthuang`: `digitize − 1`, kept iff `0 ≤ · < len(edges) − 1` -/
+def binIdx (e : List Rat) (f : Freq) : Option Nat :=
+  let y : Int := (digitizeF e f : Int) - 1
+  if 0 ≤ y ∧ y < (e.length : Int) - 1 then some y.toNat else none
+
+/-- the pinned tree (before the D8 repair): `yinds[yinds < 0] = 0`, kept iff
+    `yinds < len(edges) − 1  or  yinds == 0` -/
+def binIdxPinned (e : List Rat) (f : Freq) : Option Nat :=
+  let y0 : Int := (digitizeF e f : Int) - 1
+  let y : Int := if y0 < 0 then 0 else y0
+  if y < (e.length : Int) - 1 ∨ y = 0 then some y.toNat else none
+
+/-- one time row: frequencies and amplitudes of all IMFs -/
+abbrev HRow := List Freq × List Rat
+
+def hhtRowTripsWith (bin : Freq → Option Nat) (energy : Bool) (t : Nat) (r : HRow) : List Trip :=
+  (List.zip r.1 r.2).filterMap fun fa => (bin fa.1).map fun b => ⟨b, t, weight energy fa.2⟩
+
+def hhtRowTrips (e : List Rat) := hhtRowTripsWith (binIdx e)
+
+/-- the sparse (COO) form returned with `return_sparse=True`: entries in C order of the samples -/
+def hhtCoo (e : List Rat) (energy : Bool) (F : List (List Freq)) (A : List (List Rat)) : List Trip :=
+  cooFrom (hhtRowTrips e energy) 0 (List.zip F A)
+
+/-- the dense form `[bins × time]` -/
+def hhtDense (e : List Rat) (energy : Bool) (F : List (List Freq)) (A : List (List Rat)) : List (List Rat) :=
+  toDense (e.length - 1) F.length (hhtCoo e energy F A)
+
+def hhtCooPinned (e : List Rat) (energy : Bool) (F : List (List Freq)) (A : List (List Rat)) : List Trip :=
+  cooFrom (hhtRowTripsWith (binIdxPinned e) energy) 0 (List.zip F A)
+
+def hhtDensePinned (e : List Rat) (energy : Bool) (F : List (List Freq)) (A : List (List Rat)) :=
+  toDense (e.length - 1) F.length (hhtCooPinned e energy F A)
+
+/-! ### hilberthuang_1d -/
+
+/-- `infr[(infr < edges[0]) + (infr > edges[-1])] = nan` -/
+def nanOut (e : List Rat) : Freq → Freq
+  | none => none
+  | some f =>
+    match e.head?, e.getLast? with
+    | some lo, some hi => if f < lo ∨ hi < f then none else some f
+    | _, _ => some f
+
+/-- `nansum(w[finds[:, j] == b+1, j])` -/
+def hht1dCell (e : List Rat) (energy : Bool) (rows : List HRow) (b j : Nat) : Rat :=
+  (rows.map fun r =>
+    match (List.zip r.1 r.2)[j]? with
+    | some fa => if digitizeF e (nanOut e fa.1) = b + 1 then weight energy fa.2 else 0
+    | none => 0).sum
+
+/-- the 1-D spectrum `[bins × IMFs]` -/
+def hht1d (e : List Rat) (energy : Bool) (ncols : Nat) (F : List (List Freq)) (A : List (List Rat)) :
+    List (List Rat) :=
+  (List.range (e.length - 1)).map fun b =>
+    (List.range ncols).map fun j => hht1dCell e energy (List.zip F A) b j
+
+/-! ### holospectrum -/
+
+/-- one time row: first-level frequencies `[M]`, second-level frequencies and amplitudes `[M][K]` -/
+structure HoloRow where
+  f1 : List Freq
+  f2 : List (List Freq)
+  a2 : List (List Rat)
+
+/-- `infr_inds + IA_inds * fold_dim1` with `fold_dim1 = len(freq_edges) + 1` -/
+def foldIdx (L1 d1 d2 : Nat) : Nat := d1 + d2 * (L1 + 1)
+
+def holoRowTrips (e1 e2 : List Rat) (energy : Bool) (t : Nat) (r : HoloRow) : List Trip :=
+  (List.zip r.f1 (List.zip r.f2 r.a2)).flatMap fun x =>
+    (List.zip x.2.1 x.2.2).map fun fa =>
+      ⟨t, foldIdx e1.length (digitizeF e1 x.1) (digitizeF e2 fa.1), weight energy fa.2⟩
+
+def holoCoo (e1 e2 : List Rat) (energy : Bool) (rows : List HoloRow) : List Trip :=
+  cooFrom (holoRowTrips e1 e2 energy) 0 rows
+
+def holoCols (e1 e2 : List Rat) : Nat := (e1.length + 1) * (e2.length + 1)
+
+/-- the `[T × (L1+1)(L2+1)]` matrix -/
+def holoFlat (e1 e2 : List Rat) (energy : Bool) (rows : List HoloRow) : List (List Rat) :=
+  toDense rows.length (holoCols e1 e2) (holoCoo e1 e2 energy rows)
+
+/-- C-order `reshape(nr, nc)` of a vector -/
+def reshape2 (nr nc : Nat) (v : List Rat) : List (List Rat) :=
+  (List.range nr).map fun i => (v.drop (i * nc)).take nc
+
+/-- `x[1:-1]` -/
+def trim {α : Type} (l : List α) : List α := (l.drop 1).dropLast
+
+/-- `x[1:-1, 1:-1]` -/
+def trim2 (m : List (List Rat)) : List (List Rat) := trim (m.map trim)
+
+def unfoldTrim (e1 e2 : List Rat) (v : List Rat) : List (List Rat) :=
+  trim2 (reshape2 (e2.length + 1) (e1.length + 1) v)
+
+/-- `squash_time=False`: `[time × AM bins × carrier bins]` -/
+def holo3d (e1 e2 : List Rat) (energy : Bool) (rows : List HoloRow) : List (List (List Rat)) :=
+  (holoFlat e1 e2 energy rows).map (unfoldTrim e1 e2)
+
+/-- `sparse.sum(axis=0)` -/
+def colSums (nc : Nat) (m : List (List Rat)) : List Rat :=
+  (List.range nc).map fun c => (m.map fun r => r[c]?.getD 0).sum
+
+/-- `squash_time='sum'` -/
+def holoSum (e1 e2 : List Rat) (energy : Bool) (rows : List HoloRow) : List (List Rat) :=
+  unfoldTrim e1 e2 (colSums (holoCols e1 e2) (holoFlat e1 e2 energy rows))
+
+/-- `squash_time='mean'` -/
+def holoMean (e1 e2 : List Rat) (energy : Bool) (rows : List HoloRow) : List (List Rat) :=
+  unfoldTrim e1 e2 ((colSums (holoCols e1 e2) (holoFlat e1 e2 energy rows)).map (· / (rows.length : Rat)))
+
+/-! ### bin bookkeeping -/
+
+/-- `define_hist_bins`: centre of each bin -/
+def centres : List Rat → List Rat
+  | a :: b :: t => (a + b) / 2 :: centres (b :: t)
+  | _ => []
+
+/-- `define_hist_bins_from_data(nbins=None, mode='sqrt')`: `int(sqrt(n))` -/
+def sqrtBins (n : Nat) : Nat := Nat.sqrt n
+
+def sortedLe : List Rat → Bool
+  | a :: b :: t => decide (a ≤ b) && sortedLe (b :: t)
+  | _ => true
+
+def sortedGe : List Rat → Bool
+  | a :: b :: t => decide (b ≤ a) && sortedGe (b :: t)
+  | _ => true
+
+/-! ### shapes (emd.support.ensure_2d / ensure_equal_dims as used by the spectra) -/
+
+/-- `ensure_2d`: a vector gets a trailing singleton dimension; anything else is untouched -/
+def ensure2d (s : List Nat) : List Nat := if s.length = 1 then s ++ [1] else s
+
+/-- `ensure_equal_dims(dim=None)`: compare the leading `ndim(first)` dimensions of all inputs;
+    `none` = IndexError (an input with fewer dimensions than the first) -/
+def equalDimsAll (ss : List (List Nat)) : Option Bool :=
+  match ss with
+  | [] => some true
+  | s0 :: rest =>
+    if rest.any (·.length < s0.length) then none
+    else some (rest.all fun s => s.take s0.length == s0)
+
+/-- `ensure_equal_dims(dim=d)`; `none` = IndexError -/
+def equalDimsAt (ss : List (List Nat)) (d : Nat) : Option Bool :=
+  match ss.mapM (·[d]?) with
+  | none => none
+  | some [] => some true
+  | some (a :: rest) => some (rest.all (· == a))
+
+/-! ### protocol -/
+
+open Protocol
+
+def chunk (n : Nat) : Nat → List α → List (List α)
+  | 0, _ => []
+  | k + 1, l => l.take n :: chunk n k (l.drop n)
+
+/-- values + NaN mask → frequencies -/
+def mkFreqs (vals : List Rat) (nan : List Rat) : Option (List Freq) :=
+  if vals.length ≠ nan.length then none
+  else (List.zip vals nan).mapM fun (v, m) =>
+    if m = 0 then some (some v) else if m = 1 then some none else none
+
+def fmtMat (m : List (List Rat)) : String := fmtVec m.flatten
+
+def parseMode (o : Op) : Option Bool :=
+  match o.str? "mode" with
+  | some "energy" => some true
+  | some "amplitude" => some false
+  | _ => none
+
+/-- classification of an edge vector for `np.digitize`: `ok`, or the answer to give -/
+def edgesProblem (e : List Rat) : Option String :=
+  if sortedLe e then none
+  else if sortedGe e then some "bad-op"      -- decreasing bins: outside this model
+  else some "err ValueError"
+
+def handle (o : Op) : Option String :=
+  match o.name with
+  | "DIGITIZE" => some <| Id.run do
+      let some e := o.vec? 0 | return "bad-op"
+      let some v := o.vec? 1 | return "bad-op"
+      let some n := o.vec? 2 | return "bad-op"
+      let some fs := mkFreqs v n | return "bad-op"
+      if let some p := edgesProblem e then return p
+      return s!"ok | {fmtNats (fs.map (digitizeF e))}"
+  | "HHT" | "HHTPIN" => some <| Id.run do
+      -- | edges | shape(infr) | shape(inam) | infr values | infr NaN mask | inam values
+      let some energy := parseMode o | return "bad-op"
+      let some e := o.vec? 0 | return "bad-op"
+      let some sf := (o.vec? 1) >>= toNats? | return "bad-op"
+      let some sa := (o.vec? 2) >>= toNats? | return "bad-op"
+      let some fv := o.vec? 3 | return "bad-op"
+      let some fn := o.vec? 4 | return "bad-op"
+      let some av := o.vec? 5 | return "bad-op"
+      let some fs := mkFreqs fv fn | return "bad-op"
+      if sf.length = 0 ∨ sf.length > 2 ∨ sa.length = 0 ∨ sa.length > 2 then return "bad-op"
+      if fs.length ≠ sf.foldl (· * ·) 1 ∨ av.length ≠ sa.foldl (· * ·) 1 then return "bad-op"
+      let sf := ensure2d sf
+      let sa := ensure2d sa
+      match equalDimsAll [sf, sa] with
+      | none => return "err IndexError"
+      | some false => return "err ValueError"
+      | some true => pure ()
+      if e.length = 0 then return "err IndexError"      -- freq_edges[0]
+      if let some p := edgesProblem e then return p
+      let T := sf[0]!
+      let M := sf[1]!
+      let F := chunk M T fs
+      let A := chunk M T av
+      let coo := if o.name = "HHT" then hhtCoo e energy F A else hhtCooPinned e energy F A
+      let nb := e.length - 1
+      if !inShape nb T coo then return "err ValueError"
+      let dense := toDense nb T coo
+      return s!"ok nb={nb} T={T} nnz={coo.length} | {fmtMat dense} | {fmtNats (coo.map (·.row))} | {fmtNats (coo.map (·.col))} | {fmtVec (coo.map (·.val))}"
+  | "HHT1D" => some <| Id.run do
+      -- | edges | shape(infr) | infr values | infr NaN mask | inam values   (inam has the shape of infr)
+      let some energy := parseMode o | return "bad-op"
+      let some e := o.vec? 0 | return "bad-op"
+      let some sf := (o.vec? 1) >>= toNats? | return "bad-op"
+      let some fv := o.vec? 2 | return "bad-op"
+      let some fn := o.vec? 3 | return "bad-op"
+      let some av := o.vec? 4 | return "bad-op"
+      let some fs := mkFreqs fv fn | return "bad-op"
+      if sf.length = 0 ∨ sf.length > 2 then return "bad-op"
+      if fs.length ≠ sf.foldl (· * ·) 1 ∨ av.length ≠ fs.length then return "bad-op"
+      if sf.length = 1 then return "err IndexError"     -- infr.shape[1]
+      if e.length = 0 then return "err ValueError"      -- np.zeros((-1, M))
+      if let some p := edgesProblem e then return p
+      let T := sf[0]!
+      let M := sf[1]!
+      let spec := hht1d e energy M (chunk M T fs) (chunk M T av)
+      return s!"ok nb={e.length - 1} M={M} | {fmtMat spec}"
+  | "HOLO" => some <| Id.run do
+      -- | e1 | e2 | shape(infr) | shape(infr2) | shape(inam2) | infr | nan | infr2 | nan | inam2
+      let some energy := parseMode o | return "bad-op"
+      let some squash := o.str? "squash" | return "bad-op"
+      let some e1 := o.vec? 0 | return "bad-op"
+      let some e2 := o.vec? 1 | return "bad-op"
+      let some s1 := (o.vec? 2) >>= toNats? | return "bad-op"
+      let some s2 := (o.vec? 3) >>= toNats? | return "bad-op"
+      let some s3 := (o.vec? 4) >>= toNats? | return "bad-op"
+      let some f1v := o.vec? 5 | return "bad-op"
+      let some f1n := o.vec? 6 | return "bad-op"
+      let some f2v := o.vec? 7 | return "bad-op"
+      let some f2n := o.vec? 8 | return "bad-op"
+      let some a2 := o.vec? 9 | return "bad-op"
+      let some f1 := mkFreqs f1v f1n | return "bad-op"
+      let some f2 := mkFreqs f2v f2n | return "bad-op"
+      if squash ≠ "none" ∧ squash ≠ "sum" ∧ squash ≠ "mean" then return "bad-op"
+      if s1.length = 0 ∨ s1.length > 2 ∨ s2.length = 0 ∨ s2.length > 3 ∨ s3.length = 0 ∨ s3.length > 3 then
+        return "bad-op"
+      if f1.length ≠ s1.foldl (· * ·) 1 ∨ f2.length ≠ s2.foldl (· * ·) 1 ∨ a2.length ≠ s3.foldl (· * ·) 1 then
+        return "bad-op"
+      let s1 := ensure2d s1
+      let s2 := ensure2d s2
+      let s3 := ensure2d s3
+      match equalDimsAt [s1, s2, s3] 0 with
+      | none => return "err IndexError"
+      | some false => return "err ValueError"
+      | some true => pure ()
+      match equalDimsAt [s1, s2, s3] 1 with
+      | none => return "err IndexError"
+      | some false => return "err ValueError"
+      | some true => pure ()
+      if s2.length < 3 then return "err IndexError"      -- infr2.shape[2]
+      if e1.length = 0 ∨ e2.length = 0 then return "err IndexError"   -- freq_edges[0]
+      if let some p := edgesProblem e2 then return p
+      if let some p := edgesProblem e1 then return p
+      let T := s1[0]!
+      let M := s1[1]!
+      let K := s2[2]!
+      -- coo_matrix: data (inam2.reshape(-1)) and coordinates (T*M*K) must have the same length
+      if a2.length ≠ T * M * K then return "err ValueError"
+      let F1 := chunk M T f1
+      let F2 := (chunk (M * K) T f2).map (chunk K M)
+      let A2 := (chunk (M * K) T a2).map (chunk K M)
+      let rows := (List.zip F1 (List.zip F2 A2)).map fun x => (⟨x.1, x.2.1, x.2.2⟩ : HoloRow)
+      let na := e2.length - 1
+      let nc := e1.length - 1
+      if squash = "none" then
+        return s!"ok T={T} na={na} nc={nc} | {fmtVec ((holo3d e1 e2 energy rows).map List.flatten).flatten}"
+      else if squash = "sum" then
+        return s!"ok na={na} nc={nc} | {fmtMat (holoSum e1 e2 energy rows)}"
+      else
+        if T = 0 then return "err ZeroDivisionError"     -- sparse mean over an empty axis
+        return s!"ok na={na} nc={nc} | {fmtMat (holoMean e1 e2 energy rows)}"
+  | "CENTRES" => some <| Id.run do
+      let some e := o.vec? 0 | return "bad-op"
+      return s!"ok n={(centres e).length} | {fmtVec (centres e)}"
+  | "SQRTBINS" => some <| Id.run do
+      let some n := o.nat? "n" | return "bad-op"
+      return s!"ok nbins={sqrtBins n}"
+  | _ => none
 
 end Spectra
